@@ -31,7 +31,8 @@ def run_inproc_case(case, ctx, mon):
     sched = {int(k): v for k, v in case["schedule"].items()}
     marks = [it.get("mark") for it in case["items"]]
     det = dict(n_workers=case["n_workers"], combo=list(combo), schedule=case["schedule"], marks=marks)
-    outcome, res, fctx = P.run_inproc(case["items"], sched, case["n_workers"], case["args"])
+    outcome, res, fctx = P.run_inproc(case["items"], sched, case["n_workers"], case["args"], kind=case.get("item_kind", "dict"),
+                                      as_generator=case.get("as_generator", False))
     lethal = "exit" in marks
     if outcome == "hang":
         mon.check(False, "parallel_add-terminates", why=str(res), **det)
@@ -55,6 +56,7 @@ def run_inproc_case(case, ctx, mon):
     for m in marks:
         if m:
             mon.seen("marks", m)
+    mon.seen("item_kind", case.get("item_kind", "dict"))
     del sketches, res
     mon.nontrivial(n_marked > 0)
 
@@ -91,7 +93,7 @@ def spawned_death_case(rng, nw, kth):
     lethal = min(n_items - 1, kth)
     items = P.gen_items(rng, n_items, keys, marks={lethal: "exit"}, sleep=True)
     return {"type": "spawned", "items": items, "n_workers": nw, "combo": list(COMBO_ALL), "args": P.gen_args(rng, COMBO_ALL, "linear"),
-            "lethal": lethal, "timeout": 600}
+            "lethal": lethal, "timeout": 600, "item_kind": pick(rng, ["dict", "bytes", "int"])}
 
 
 def gen_cases(ctx):
@@ -118,7 +120,8 @@ def gen_cases(ctx):
     for marks, sched in combos:
         items = [dict(it, mark=m) for it, m in zip(proto, marks)]
         yield {"type": "inproc", "items": items, "n_workers": n_workers, "combo": list(COMBO_ALL), "args": args,
-               "schedule": {str(w): v for w, v in sched.items()}, "exhaustive": [n_items, n_workers]}
+               "schedule": {str(w): v for w, v in sched.items()}, "exhaustive": [n_items, n_workers],
+               "item_kind": P.ITEM_KINDS[(hash(marks) + sum(len(v) * (w + 1) for w, v in sched.items())) % len(P.ITEM_KINDS)]}
     # --- sampled: more items, 1..3 workers, all combinations, incl. simulated death
     n_rand = 300 if q else 10**9
     for j in range(n_rand):
@@ -134,7 +137,7 @@ def gen_cases(ctx):
         for i in rng.permutation(n_items).tolist():
             sched[int(rng.integers(0, nw))].append(i)
         yield {"type": "inproc", "items": items, "n_workers": nw, "combo": list(combo), "args": P.gen_args(rng, combo),
-               "schedule": {str(w): v for w, v in sched.items()}}
+               "schedule": {str(w): v for w, v in sched.items()}, "item_kind": pick(rng, P.ITEM_KINDS), "as_generator": bool(rng.random() < 0.3)}
 
 
 def run_case(case, ctx, mon):
